@@ -35,7 +35,7 @@ one() {
   wt=$S/wt.$n
   git -C $REPO worktree add -q --detach $wt HEAD 2>/dev/null || { echo "$n $p SETUP-FAILED"; return; }
   if ! git -C $wt apply $(pwd)/$patch 2>$S/$n.apply; then echo "$n $p PATCH-DOES-NOT-APPLY"; git -C $REPO worktree remove --force $wt; return; fi
-  bin/govc check -property $p -tier quick -repo $wt -verif "$(pwd)" -out $S/out.$n > $S/$n.log 2>&1
+  ${GOVC_BIN:-bin/govc} check -property $p -tier quick -repo $wt -verif "$(pwd)" -out $S/out.$n > $S/$n.log 2>&1
   rc=$?
   v=$(grep -c '^VIOLATION' $S/$n.log)
   first=$(grep -m1 '^VIOLATION' $S/$n.log | sed 's/.*replays\/[^/]*\///; s/\.json.*//')
